@@ -683,6 +683,29 @@ def run(scenario, world):
                 lp = chi.LogPosterior(ll, zoo.build_prior(
                     {'n': ll.n_parameters(), 'kind': 'lognormal'}))
                 check_named(lp, step, 'logpost')
+            outs_ = list(mech.outputs())
+            if len(outs_) >= 2 and not llspec.get('mech_wrap') \
+                    and 'toy' not in llspec:
+                # the `outputs` argument maps the error models to the model
+                # outputs, in the order given (here: reversed)
+                perm = outs_[::-1]
+                errs_p = [copy.deepcopy(e_) for e_ in errs[::-1]]
+                pred_p = call(chi.PredictiveModel, mech.copy(), errs_p,
+                              outputs=perm)
+                if is_exc(pred_p):
+                    fail('op.compose_pred_outputs', 'raises', '%r\n%s' % (
+                        pred_p, pred_p.tb), step)
+                want = list(mech.parameters())
+                for o_, e_ in zip(perm, errs[::-1]):
+                    want += [o_ + ' ' + x for x in e_.get_parameter_names()]
+                got = (list(pred_p.get_output_names()),
+                       list(pred_p.get_parameter_names()))
+                if got != (perm, want):
+                    fail('pred.name_order', 'outputs_argument',
+                         'PredictiveModel(..., outputs=%s): outputs %s, '
+                         'names %s; expected %s' % (perm, got[0], got[1],
+                                                    want), step)
+                world.probe('outputs_argument_reordered')
             pred = chi.PredictiveModel(mech, errs)
             n, _ = check_named(pred, step, 'pred')
             s = call(pred.sample, _in_support(vals, n), [1.0, 2.0], 2, 1)
